@@ -100,16 +100,68 @@ MAXLEN = {'quick': 7, 'thorough': 9}
 
 
 def chunks(tier, seed):
-    out = [('short',)]
+    out = [('short', 'cold'), ('short', 'warm')]
 
     for a in range(len(ALPHABET)):
         for b in range(len(ALPHABET)):
-            out.append(('prefix', a, b, MAXLEN[tier]))
+            # every chunk once in a process that has done nothing else with
+            # the library, once after other library calls
+            out.append(('prefix', a, b, MAXLEN[tier],
+                        'warm' if (a + b) % 2 else 'cold'))
 
     return out
 
 
+def warm_up():
+    """Other library calls a process may have made before it splits lines:
+    newline helpers for every codec family, a parse and a statistics run
+    over UTF-16 content."""
+    ns = sut.load()
+
+    for enc in (None, 'ascii', 'utf-8', 'utf-16', 'utf-16-le', 'utf-16-be',
+                'utf-32', 'utf-32-le', 'utf-32-be', 'cp037', 'latin-1'):
+        for kind in ('unix', 'dos'):
+            try:
+                ns.text.get_newline_for_type(kind, enc)
+                sample = ('a' + spec.nl_str(kind) + 'b').encode(enc or
+                                                                'ascii')
+                ns.text.guess_line_endings(sample, encoding=enc)
+                ns.text.guess_line_endings('a' + spec.nl_str(kind) + 'b')
+            except Exception:
+                pass
+
+    prog = {'encoding': 'utf-16', 'calls': [
+        ['preamble', {'text': 'p\r\nq'}], ['change', {}], ['file', {}],
+        ['meta', {'metadata': {'k': 1}}],
+        ['diff', {'content': '@@ -1 +1 @@\n-a\n+b\n'.encode('utf-16-le'),
+                  'encoding': 'utf-16-le'}]]}
+
+    try:
+        tree = ns.DiffX.from_bytes(spec.ref_serialize(prog))
+        tree.generate_stats()
+        tree.to_bytes()
+    except Exception:
+        pass
+
+
 def run_chunk(chunk, st):
+    from dxv import engine
+    engine.run_isolated(_run_chunk_here, list(chunk), st)
+    # counters travel back through classes
+    evals = st.classes.pop('$evals', 0)
+    nontrivial = st.classes.pop('$nontrivial', 0)
+    st.bulk(evals, nontrivial,
+            sample={'chunk': list(chunk)} if chunk[0] != 'short' else None)
+
+
+def _run_chunk_here(chunk, st):
+    chunk = tuple(chunk)
+
+    if chunk[-1] == 'warm':
+        warm_up()
+
+    chunk = chunk[:-1]
+
     if chunk[0] == 'short':
         strings = list(ALPHABET)
     else:
@@ -139,7 +191,8 @@ def run_chunk(chunk, st):
                 st.violation(res[0], '%s; data=%r newline=%r'
                              % (res[1], data, nl), [data, nl])
 
-    st.bulk(evals, nontrivial, sample=sample)
+    st.classes['$evals'] += evals
+    st.classes['$nontrivial'] += nontrivial
 
 
 # -- block boundaries -----------------------------------------------------
@@ -147,11 +200,42 @@ def run_chunk(chunk, st):
 BLOCKS = (96, 1024, 4096, 8192, 65536, 131072)
 
 
+LINE_COUNTS = (255, 256, 257, 258, 259, 1023, 1024, 1025, 4096, 4097,
+               65535, 65536, 65537)
+
+
 def boundary_chunks(tier, seed):
-    return [('block', b) for b in BLOCKS]
+    return [('block', b) for b in BLOCKS] + [('lines', n)
+                                             for n in LINE_COUNTS]
+
+
+def run_line_count_chunk(n, st):
+    evals = 0
+
+    for nl in NEWLINES:
+        for unit in (b'a', b''):
+            for tail in (b'', b'tail', b'\r', nl[:-1] or b'x'):
+                data = (unit + nl) * n + tail
+
+                if not data:
+                    continue
+
+                evals += 1
+                res = judge(data, nl)
+
+                if res is not None:
+                    st.violation(res[0], '%s; %d lines, newline %r, tail %r'
+                                 % (res[1][:160], n, nl, tail),
+                                 {'lines': n, 'newline': nl, 'unit': unit,
+                                  'tail': tail})
+
+    st.bulk(evals, evals, sample={'lines': n})
 
 
 def run_boundary_chunk(chunk, st):
+    if chunk[0] == 'lines':
+        return run_line_count_chunk(chunk[1], st)
+
     """A newline straddling every offset around a power-of-two block
     boundary, in data larger than the block."""
     _, block = chunk
@@ -191,6 +275,10 @@ def run_boundary_chunk(chunk, st):
 
 
 def run_boundary_case(case, st):
+    if 'lines' in case:
+        data = (case['unit'] + case['newline']) * case['lines'] + case['tail']
+        return run_case([data, case['newline']], st)
+
     block, k, off = case['boundary']
     nl = case['newline']
     pos = k * block + off
@@ -228,7 +316,10 @@ def checks():
             rule='every byte string over {CR,LF,NUL,SP,a} of length 1..L x '
                  'the 10 newline sequences (LF, CRLF and their UTF-16/32 '
                  'LE/BE encodings); non-trivial = the string contains the '
-                 'newline and is longer than it; enumerated, hence distinct',
+                 'newline and is longer than it; enumerated, hence distinct; '
+                 'each chunk runs in a freshly forked process, half of them '
+                 'after other library calls (newline helpers for every codec '
+                 'family, a UTF-16 parse, statistics and serialisation)',
             bound={'quick': 'L = 7', 'thorough': 'L = 9'}),
         EnumCheck(
             'block-boundaries', boundary_chunks, run_boundary_chunk,
@@ -236,7 +327,9 @@ def checks():
             rule='data larger than a block with a newline placed at every '
                  'offset around k x block (block in 96, 1 KiB, 4 KiB, 8 KiB, '
                  '64 KiB, 128 KiB; k = 1, 2) for all 10 newline sequences '
-                 'and 4 tails; every case has >= 1 newline (non-trivial)',
+                 'and 4 tails; and data with exactly 255..259, 1023..1025, '
+                 '4096, 4097, 65535..65537 lines (terminated or not); every '
+                 'case has >= 1 newline (non-trivial)',
             bound={'quick': '6 block sizes x 2 multiples x all straddling '
                             'offsets', 'thorough': 'same'}),
         HypCheck(
